@@ -13,6 +13,7 @@ import (
 	"encoding/xml"
 	"fmt"
 	"io"
+	"regexp"
 	"strconv"
 	"strings"
 )
@@ -83,20 +84,20 @@ type c05Walk struct {
 	stack []xml.Name
 	root  string
 	// worksheet state
-	inWs      bool
-	rowOpen   bool
-	rowToks   []string
-	prevRow   int
-	prevCol   int
-	curRow    int
-	cellRef   string
-	cellS     string
-	cellT     string
-	cellV     string
-	cellHasV  bool
-	cellF     bool
-	inV       bool
-	inCell    bool
+	inWs     bool
+	rowOpen  bool
+	rowToks  []string
+	prevRow  int
+	prevCol  int
+	curRow   int
+	cellRef  string
+	cellS    string
+	cellT    string
+	cellV    string
+	cellHasV bool
+	cellF    bool
+	inV      bool
+	inCell   bool
 	// styles
 	fonts, fills, borders, csXfs, dxfs int
 	numFmts                            []string
@@ -329,13 +330,13 @@ func c05Graph(data []byte) (lines []string, zipErr error) {
 		lines = append(lines, "g.part "+hx(e.Name))
 		rc, err := e.Open()
 		if err != nil {
-			lines = append(lines, "g.bad "+hx(e.Name))
+			lines = append(lines, "g.bad "+hx(e.Name)+" "+hx("zip entry cannot be opened"))
 			continue
 		}
 		b, err := io.ReadAll(rc)
 		rc.Close()
 		if err != nil {
-			lines = append(lines, "g.bad "+hx(e.Name))
+			lines = append(lines, "g.bad "+hx(e.Name)+" "+hx("zip entry cannot be read"))
 			continue
 		}
 		ents = append(ents, ent{e.Name, b})
@@ -356,6 +357,7 @@ func c05Graph(data []byte) (lines []string, zipErr error) {
 		dec := xml.NewDecoder(bytes.NewReader(e.data))
 		dec.Strict = true
 		bad := false
+		var badErr error
 		sawRoot := false
 		for {
 			tok, err := dec.Token()
@@ -364,6 +366,7 @@ func c05Graph(data []byte) (lines []string, zipErr error) {
 			}
 			if err != nil {
 				bad = true
+				badErr = err
 				break
 			}
 			switch t := tok.(type) {
@@ -377,7 +380,12 @@ func c05Graph(data []byte) (lines []string, zipErr error) {
 			}
 		}
 		if bad || !sawRoot || len(w.stack) != 0 {
-			lines = append(lines, "g.bad "+hx(e.name))
+			// where and how: innermost open element + class of the parser's complaint
+			in := "-"
+			if len(w.stack) > 0 {
+				in = w.stack[len(w.stack)-1].Local
+			}
+			lines = append(lines, "g.bad "+hx(e.name)+" "+hx("in <"+in+">: "+c05XMLErrClass(badErr, sawRoot)))
 			continue
 		}
 		w.finish()
@@ -385,6 +393,26 @@ func c05Graph(data []byte) (lines []string, zipErr error) {
 	}
 	lines = append(lines, "g.end")
 	return lines, nil
+}
+
+var c05LineNo = regexp.MustCompile(`^XML syntax error on line [0-9]+: `)
+
+// c05XMLErrClass: the parser's message without position, values shortened.
+func c05XMLErrClass(err error, sawRoot bool) string {
+	if err == nil {
+		if !sawRoot {
+			return "no root element"
+		}
+		return "unclosed element at end of input"
+	}
+	m := c05LineNo.ReplaceAllString(err.Error(), "")
+	if i := strings.Index(m, ": "); i > 0 && strings.HasPrefix(m, "invalid character entity") {
+		m = m[:i]
+	}
+	if len(m) > 70 {
+		m = m[:70]
+	}
+	return m
 }
 
 func c05ContentTypes(data []byte, lines *[]string) {
